@@ -377,6 +377,72 @@ for _g in FW_GROUPS + ["attrobj"]:
                     cbmc=["--unwind", "26", "--unwinding-assertions"],
                     fuc=["__wrap_" + r[1] for r in FW if r[0] == _g] if _g != "attrobj" else ["__wrap_" + n for n, _ in PASS], timeout=200))
 
+# ---------------------------------------------------------------------------------------------------------------
+# (d) native compile-time lemmas + classification of the wrapper list; consumed by ./check as extra obligations
+# (list of dicts name / ok / detail; "undecided" when the tool chain, not the lemma, failed)
+def pre(tier):
+    import re, subprocess, tempfile, shutil
+    import vf
+    out = []
+    src = _os.path.join(vf.CONTRACTS, "c16_overlay_native.c")
+    inc = ["-I" + _os.path.join(vf.REPO, "include"), "-I" + _os.path.join(vf.REPO, "src")]
+    names = {1: "myth_mutex_t fits in pthread_mutex_t", 2: "myth_cond_t fits in pthread_cond_t", 3: "myth_barrier_t fits in pthread_barrier_t",
+             4: "myth_spinlock_t fits in pthread_spinlock_t", 5: "myth_once_t fits in pthread_once_t", 6: "myth_key_t fits in pthread_key_t",
+             7: "myth_thread_t fits in pthread_t", 8: "PTHREAD_ONCE_INIT == myth_once_state_init",
+             9: "barrier serial-thread marks are non-zero", 10: "default mutex type is the normal type on both sides"}
+
+    def gcc(n, extra=()):
+        try:
+            p = subprocess.run(["gcc", "-std=gnu11", "-DLEMMA=%d" % n] + inc + list(extra) + [src], capture_output=True, text=True, timeout=60)
+            return p.returncode, (p.stdout + p.stderr)[-400:]
+        except Exception as e:
+            return None, repr(e)
+    rc0, txt0 = gcc(0, ["-fsyntax-only"])
+    if rc0 != 0:
+        return [dict(name="c16.overlay.native", ok=False, undecided=True, engine="gcc",
+                     detail="the lemma file does not compile even without lemmas (headers changed shape?): " + txt0)]
+    for n in sorted(names):
+        rc, txt = gcc(n, ["-fsyntax-only"])
+        if rc is None:
+            out.append(dict(name="c16.overlay.native: " + names[n], ok=False, undecided=True, engine="gcc", detail=txt))
+        else:
+            out.append(dict(name="c16.overlay.native: " + names[n] + " (size and alignment, gcc _Static_assert)", ok=(rc == 0), engine="gcc",
+                            detail="gcc _Static_assert on the real headers" if rc == 0 else txt))
+    d = tempfile.mkdtemp(prefix="c16_")
+    try:
+        exe = _os.path.join(d, "ov")
+        rc, txt = gcc(100, ["-o", exe])
+        if rc != 0:
+            out.append(dict(name="c16.overlay.native: static initialisers", ok=False, undecided=True, engine="gcc", detail=txt))
+        else:
+            p = subprocess.run([exe], capture_output=True, text=True, timeout=20)
+            out.append(dict(name="c16.overlay.native: PTHREAD_MUTEX_INITIALIZER reads as 'not converted', PTHREAD_COND_INITIALIZER / PTHREAD_ONCE_INIT as MassiveThreads' initial states",
+                            ok=(p.returncode == 0), engine="gcc+run", detail=(p.stdout + p.stderr)[-300:]))
+    except Exception as e:
+        out.append(dict(name="c16.overlay.native: static initialisers", ok=False, undecided=True, engine="gcc", detail=repr(e)))
+    finally:
+        shutil.rmtree(d, ignore_errors=True)
+    # the wrapper list of the real source against the table the harnesses were generated from
+    try:
+        text = open(_os.path.join(vf.REPO, "src", "myth_wrap_pthread.c")).read()
+        opts = set(re.findall(r"--wrap=(\w+)", open(_os.path.join(vf.REPO, "src", "myth-ld.opts")).read()))
+    except OSError as e:
+        return out + [dict(name="c16.wrapper_list", ok=False, undecided=True, engine="python", detail=repr(e))]
+    found = set(re.findall(r"__wrap\((\w+)\)", text))
+    table = set(r[1] for r in FW) | set(n for n, _ in PASS)
+    unknown = sorted(found - table - set(OUTSIDE))
+    if unknown:
+        out.append(dict(name="c16.wrapper_list", ok=False, undecided=True, engine="python",
+                        detail="wrappers not classified in units/c16.py (no forwarding obligation generated): " + ", ".join(unknown)))
+    gone = sorted(table - found)
+    out.append(dict(name="c16.wrapper_list: every entry point of the supported subset has a wrapper in src/myth_wrap_pthread.c", ok=not gone,
+                    engine="python", detail="missing: " + ", ".join(gone) if gone else "%d wrappers" % len(table)))
+    unl = sorted(table - opts)
+    out.append(dict(name="c16.wrapper_list: every entry point of the supported subset is redirected at link time (src/myth-ld.opts has --wrap=<name>)",
+                    ok=not unl, engine="python", detail="not redirected by --wrap: " + ", ".join(unl) if unl else "%d --wrap options" % len(table)))
+    return out
+
+
 META = {
  "level": "other",
  "level_text": "adapter contracts",
